@@ -70,10 +70,19 @@ pub fn flavour_name(f: u8) -> &'static str {
 #[derive(Clone, Debug)]
 pub struct Violation {
     pub prop: &'static str,
+    /// a second property whose statement the same observation contradicts
+    pub also: Option<&'static str>,
     pub kind: &'static str,
     pub detail: String,
     /// index of the op after which the violation was observed (ops.len() = teardown)
     pub step: usize,
+}
+
+impl Violation {
+    /// does this violation contradict property `p`?
+    pub fn is(&self, p: &str) -> bool {
+        self.prop == p || self.also == Some(p)
+    }
 }
 
 /// Result record of executing one history.
@@ -124,7 +133,13 @@ impl Run {
     }
     pub fn violate(&mut self, prop: &'static str, kind: &'static str, detail: String) {
         if self.violation.is_none() {
-            self.violation = Some(Violation { prop, kind, detail, step: self.step_now });
+            self.violation = Some(Violation { prop, also: None, kind, detail, step: self.step_now });
+        }
+    }
+    /// a violation that contradicts two properties
+    pub fn violate2(&mut self, prop: &'static str, also: &'static str, kind: &'static str, detail: String) {
+        if self.violation.is_none() {
+            self.violation = Some(Violation { prop, also: Some(also), kind, detail, step: self.step_now });
         }
     }
     pub fn failed(&self) -> bool {
